@@ -72,6 +72,9 @@ SEP_MOTIFS = {
     "two_separators": {"di": [("a", "x"), ("b", "x"), ("a", "m"), ("b", "m"), ("m", "y")], "bi": [("a", "b")]},
     # a collider whose only conditioned descendant is two steps away
     "far_collider": {"di": [("a", "m"), ("m", "n"), ("n", "z")], "bi": [("m", "b")]},
+    # the only smallest separator of (a, b) is {m}, which is adjacent to neither endpoint (not even after moralisation);
+    # every separator made of neighbours has two nodes
+    "double_diamond": {"di": [("a", "p"), ("a", "q"), ("p", "m"), ("q", "m"), ("m", "r"), ("m", "s"), ("r", "b"), ("s", "b")], "bi": []},
 }
 
 
